@@ -106,6 +106,12 @@ def gen_data(rng, n, dim, stream, sparse):
         for _ in range(max(1, n // 10)):
             a, b = rng.integers(0, n, 2)
             X[a] = X[b] * float(rng.choice([0.5, 2.0, 3.0]))
+    elif stream == "hub":
+        # a hub: one point close to the origin, all others spread on a sphere around it — every point lists the hub, so the
+        # hub collects n-1 reverse edges and only the degree prune bounds its row (also for large multipliers)
+        U = rng.standard_normal((n, dim)); U /= np.linalg.norm(U, axis=1, keepdims=True)
+        X = U * (1.0 + 0.05 * rng.random((n, 1)))
+        X[0] = 0.01 * rng.standard_normal(dim)
     elif stream == "parallel":
         # clusters of parallel vectors: cosine / correlation lengths are roundings of 0 (tiny positive, zero, slightly negative)
         g = max(2, n // 6)
@@ -288,7 +294,7 @@ def api_predicate(res, cfg, idx, ng, T, m):
 # ----------------------------------------------------------------------------------------------
 PLANS = [
     # (metric, sparse, data streams, rotating)
-    ("euclidean", False, ["gauss", "smallint", "gauss", "dups"]),
+    ("euclidean", False, ["gauss", "smallint", "hub", "dups"]),
     ("cosine", False, ["gauss", "parallel", "dups", "smallint"]),
     ("correlation", False, ["gauss", "corr2d", "parallel", "dups"]),
     ("euclidean", True, ["gauss", "smallint", "gauss", "dups"]),
@@ -306,11 +312,13 @@ def run_plan(res, rng, plan, count, tier):
         dim = int(rng.choice([4, 7] if (sparse or stream == "parallel" or metric == "correlation") else [2, 4, 7]))
         if stream == "parallel":
             n = int(rng.choice([40, 90, 120])); k = int(rng.choice([2, 4]))
+        if stream == "hub":
+            n = int(rng.choice([60, 120])); k = int(rng.choice([2, 4])); dim = 4
         stream_ = stream
         if stream == "corr2d":
             dim, stream_ = 2, "gauss"          # centred 2-vectors are (anti)parallel: lengths 0, 2 and slightly negative roundings
             k = int(rng.choice([2, 4]))
-        mult = float(rng.choice([1.5, 1.0, 0.5, 2.0, 1.0 / k, 2.0 / k, 3.0]))
+        mult = float(rng.choice([1.5, 1.0, 0.5, 2.0, 1.0 / k, 2.0 / k, 3.0])) if stream != "hub" else float(rng.choice([2.0, 3.0, 2.5]))
         m = int(round(mult * k))
         if m < 1:
             mult, m = 1.0 / k, 1
